@@ -1,0 +1,199 @@
+//go:build verif
+
+package file
+
+// Accessors for the external verification harness (property C07: the
+// offsets file is always a loadable snapshot, never ahead of commits).
+// Nothing here is used by production code; every function only calls the
+// real offsetDB.save / offsetDB.load / offsetDB.parse / jobProvider.commit.
+
+import (
+	"sort"
+	"sync"
+	"time"
+
+	"github.com/ozontech/file.d/logger"
+	"github.com/ozontech/file.d/metric"
+	"github.com/ozontech/file.d/pipeline"
+	"github.com/prometheus/client_golang/prometheus"
+	"go.uber.org/atomic"
+)
+
+// VerifStreamOffset is one (stream, offset) pair of a job.
+type VerifStreamOffset struct {
+	Stream string
+	Offset int64
+}
+
+// VerifJob is one row of a job table (what save writes / load returns).
+// Inode is not kept by load and is returned as 0.
+type VerifJob struct {
+	Filename  string
+	Inode     uint64
+	SourceID  uint64
+	Timestamp int64
+	Streams   []VerifStreamOffset
+}
+
+func verifBuildJobs(tbl []VerifJob) map[pipeline.SourceID]*Job {
+	jobs := make(map[pipeline.SourceID]*Job, len(tbl))
+	for i := range tbl {
+		t := &tbl[i]
+		var offs pipeline.SliceMap
+		for _, s := range t.Streams {
+			offs.Set(pipeline.StreamName(s.Stream), s.Offset)
+		}
+		j := &Job{
+			inode:      inodeID(t.Inode),
+			sourceID:   pipeline.SourceID(t.SourceID),
+			filename:   t.Filename,
+			shouldSkip: *atomic.NewBool(false),
+			offsets:    offs,
+			mu:         &sync.Mutex{},
+		}
+		j.eofReadInfo.setUnixNanoTimestamp(t.Timestamp)
+		jobs[j.sourceID] = j
+	}
+	return jobs
+}
+
+func verifFromLoaded(off fpOffsets) []VerifJob {
+	out := make([]VerifJob, 0, len(off))
+	for id, io := range off {
+		j := VerifJob{Filename: io.filename, SourceID: uint64(id), Timestamp: io.lastReadTimestamp}
+		for name, o := range io.streams {
+			j.Streams = append(j.Streams, VerifStreamOffset{Stream: string(name), Offset: o})
+		}
+		sort.Slice(j.Streams, func(a, b int) bool { return j.Streams[a].Stream < j.Streams[b].Stream })
+		out = append(out, j)
+	}
+	sort.Slice(out, func(a, b int) bool { return out[a].SourceID < out[b].SourceID })
+	return out
+}
+
+// VerifOffsetDB wraps one real offsetDB (its write buffer and job snapshot
+// slice are reused across Save calls, as in the plugin).
+type VerifOffsetDB struct {
+	db *offsetDB
+}
+
+func VerifNewOffsetDB(curFile, tmpFile string) *VerifOffsetDB {
+	return &VerifOffsetDB{db: newOffsetDB(curFile, tmpFile)}
+}
+
+// SetFiles changes the target / temp file names of the same offsetDB.
+func (v *VerifOffsetDB) SetFiles(curFile, tmpFile string) {
+	v.db.curOffsetsFile = curFile
+	v.db.tmpOffsetsFile = tmpFile
+}
+
+// Save runs the real offsetDB.save over a job table.
+func (v *VerifOffsetDB) Save(tbl []VerifJob) {
+	v.db.save(verifBuildJobs(tbl), &sync.RWMutex{})
+}
+
+// Load runs the real offsetDB.load.
+func (v *VerifOffsetDB) Load() ([]VerifJob, error) {
+	off, err := v.db.load()
+	if err != nil {
+		return nil, err
+	}
+	return verifFromLoaded(off), nil
+}
+
+// VerifLoadOffsets loads an offsets file with a fresh offsetDB (what a
+// restarted plugin does).
+func VerifLoadOffsets(curFile string) ([]VerifJob, error) {
+	return VerifNewOffsetDB(curFile, curFile+".atomic").Load()
+}
+
+// VerifParseOffsets runs the real parser over file content.
+func VerifParseOffsets(content string) ([]VerifJob, error) {
+	off, err := newOffsetDB("", "").parse(content)
+	if err != nil {
+		return nil, err
+	}
+	return verifFromLoaded(off), nil
+}
+
+// VerifProvider is a real jobProvider (not started: no watcher, no
+// maintenance) with a given job table, for driving the real commit.
+type VerifProvider struct {
+	jp *jobProvider
+}
+
+func VerifNewProvider(offsetsFile string, syncMode bool, tbl []VerifJob) *VerifProvider {
+	ctl := metric.NewCtl("verif_c07", prometheus.NewRegistry(), time.Minute, 0)
+	metrics := newMetricCollection(
+		ctl.RegisterCounter("c07_corruption", "help"),
+		ctl.RegisterCounter("c07_open_errors", "help"),
+		ctl.RegisterGauge("c07_notify_len", "help"),
+		ctl.RegisterGauge("c07_jobs", "help"),
+	)
+	cfg := &Config{
+		MaxFiles:       1 << 20,
+		OffsetsFile:    offsetsFile,
+		OffsetsFileTmp: offsetsFile + ".atomic",
+		Paths:          Paths{Include: []string{"/nonexistent-verif-c07/*"}},
+	}
+	if syncMode {
+		cfg.PersistenceMode_ = persistenceModeSync
+	} else {
+		cfg.PersistenceMode_ = persistenceModeAsync
+	}
+	jp := NewJobProvider(cfg, metrics, logger.Instance)
+	jp.jobs = verifBuildJobs(tbl)
+	return &VerifProvider{jp: jp}
+}
+
+// NewEvent returns a regular event that Commit can be called with (one per
+// committing goroutine; it is reused).
+func (p *VerifProvider) NewEvent() *pipeline.Event {
+	return pipeline.VerifNewEvent("regular", 0)
+}
+
+// Commit runs the real jobProvider.commit for (source, stream, offset).
+func (p *VerifProvider) Commit(e *pipeline.Event, sourceID uint64, stream string, offset int64, seq uint64) {
+	e.SourceID = pipeline.SourceID(sourceID)
+	e.Offset = offset
+	e.SeqID = seq
+	pipeline.VerifSetStreamName(e, stream)
+	p.jp.commit(e)
+}
+
+// Save runs the real offsetDB.save over the provider's jobs (what stop()
+// and the async saver do).
+func (p *VerifProvider) Save() { p.jp.offsetDB.save(p.jp.jobs, p.jp.jobsMu) }
+
+// StartAsyncSaver runs the real saveOffsetsCyclic; the returned function
+// asks it to stop (it exits after its current sleep).
+func (p *VerifProvider) StartAsyncSaver(interval time.Duration) (stop func()) {
+	done := make(chan struct{})
+	go func() {
+		p.jp.saveOffsetsCyclic(interval)
+		close(done)
+	}()
+	return func() {
+		p.jp.stopSaveOffsetsCh <- true
+		<-done
+	}
+}
+
+// Table returns the in-memory offsets of every job (under the job locks).
+func (p *VerifProvider) Table() []VerifJob {
+	p.jp.jobsMu.RLock()
+	defer p.jp.jobsMu.RUnlock()
+	out := make([]VerifJob, 0, len(p.jp.jobs))
+	for _, j := range p.jp.jobs {
+		j.mu.Lock()
+		v := VerifJob{Filename: j.filename, Inode: uint64(j.inode), SourceID: uint64(j.sourceID), Timestamp: j.eofReadInfo.getUnixNanoTimestamp()}
+		for _, kv := range j.offsets {
+			v.Streams = append(v.Streams, VerifStreamOffset{Stream: string(kv.Stream), Offset: kv.Offset})
+		}
+		j.mu.Unlock()
+		sort.Slice(v.Streams, func(a, b int) bool { return v.Streams[a].Stream < v.Streams[b].Stream })
+		out = append(out, v)
+	}
+	sort.Slice(out, func(a, b int) bool { return out[a].SourceID < out[b].SourceID })
+	return out
+}
